@@ -165,6 +165,14 @@ fn candidates(sc: &Scenario, vround: usize) -> Vec<Scenario> {
     if sc.cfg.names == Names::Parts {
         let mut s = sc.clone();
         s.cfg.names = Names::JobIds;
+        // under the job-id naming every dependency consumes all files of its upstream (see load_corpus_dir)
+        for r in s.rounds.iter_mut() {
+            for e in r.edits.iter_mut() {
+                if let Edit::AddEdge { consumed, .. } = e {
+                    consumed.clear();
+                }
+            }
+        }
         out.push(s);
     }
     for d in 0..sc.defs.len() {
